@@ -91,6 +91,8 @@ def gen(S, tier):
         # section outputs count screen rows: sometimes the terminal is exactly as wide as the frame
         "exact_columns": c.chance(0.3),
         "real_stream": c.chance(0.25),
+        "term_env": c.weighted([(None, 6), ({"tty_fds": [2], "ctty": False}, 2), ({"tty_fds": [0, 1, 2], "ctty": True}, 1),
+                                ({"tty_fds": [], "ctty": True}, 1), ({"tty_fds": [1], "ctty": False}, 1)]),
     }
     f = S("faults")
     lat = []
@@ -143,7 +145,7 @@ def simplify(sc):
     simple = {"verbosity": 0, "bar_width": None, "bar_char": None, "empty_char": "-",
               "progress_char": ">", "redraw_freq": None, "max_interval": None,
               "min_interval_setter": None, "sentinels": 0, "sections_above": 0,
-              "sections_below": 0, "skew": False, "plain_formatter": False, "min_interval": 0, "real_stream": False}
+              "sections_below": 0, "skew": False, "plain_formatter": False, "min_interval": 0, "real_stream": False, "term_env": None}
     for k, v in simple.items():
         if cfg.get(k) != v:
             c = dict(sc)
@@ -243,17 +245,19 @@ def execute(sc):
     if cfg["kind"] == "section" and cfg.get("exact_columns") and cfg["max"] > 0 and cfg["format"] is None \
             and cfg["verbosity"] == 0 and cfg["bar_width"] is None:
         columns = 38 + 2 * len(str(cfg["max"]))  # length of the default frame
-    os.environ["COLUMNS"] = str(columns)
+    from ..simenv import terminal_env
+    env = {"columns": columns}
+    if cfg.get("term_env"):
+        # the width is not in COLUMNS: the (simulated) kernel reports it for the terminal descriptors
+        env = dict(cfg["term_env"], cols=columns)
+        res.probe("width_from_window_size")
     try:
-        _run(sc, cfg, res, clock, log, columns)
+        with terminal_env(env):
+            _run(sc, cfg, res, clock, log, columns)
     except UnknownSequence as e:
         raise HarnessError("terminal emulator: %s" % e)
     finally:
         _pb.time = old_time
-        if old_cols is None:
-            os.environ.pop("COLUMNS", None)
-        else:
-            os.environ["COLUMNS"] = old_cols
     res.events = log.events
     res.sim_us = clock.us
     return res
